@@ -63,6 +63,10 @@ SCRIPTS = {
     'burst-request-eof': [('burst', 2), ('A', 'w', 5), ('A', 'eof'), ('B', 'w', 3), ('B', 'eof')],
     'burst-eof': [('burst', 1), ('A', 'eof'), ('B', 'w', 3), ('B', 'eof')],
     'burst-request': [('burst', 1), ('A', 'w', 9), ('B', 'w', 3), ('A', 'eof'), ('B', 'eof')],
+    # the connection to the destination takes time to come up: its completion is one more event, which may fall
+    # after the application gave up, after the listener was closed, after the SSH connection was lost
+    'slow-destination': [('slow',), ('A', 'w', 5), ('B', 'w', 3), ('A', 'eof'), ('B', 'eof')],
+    'slow-destination-a-closes': [('slow',), ('A', 'w', 5), ('A', 'close')],
 }
 
 
@@ -205,8 +209,12 @@ def explore_run(kind, script_name, chooser):
     cut = False
     lclosed = False
     try:
-        w.setup().connect_a()
+        w.setup()
         pending_actions = list(script)
+        if pending_actions and pending_actions[0] == ('slow',):
+            pending_actions.pop(0)
+            loop.slow_connect = lambda host, port: host == w.dest[0]
+        w.connect_a()
         burst = 0
         if pending_actions and pending_actions[0][0] == 'burst':
             burst = pending_actions.pop(0)[1]
@@ -260,8 +268,11 @@ def explore_run(kind, script_name, chooser):
                 for src, dst_end in (('A', w.B()), ('B', w.A)):
                     if eof_sent[src] and dst_end is not None and dst_end.t is not None and not dst_end.eof and not dst_end.lost:
                         viol.append(('eof-not-propagated', '%s half-closed and everything in flight was delivered, the other end has not seen EOF' % src))
+            conns = [('conn', i) for i in range(len(loop.open_connects()))]
             if dl:
-                menu = [('d', t) for t in dl] + acts
+                menu = [('d', t) for t in dl] + conns + acts
+            elif conns:
+                menu = conns + acts
             elif pending_actions:
                 menu = [('act',)] + [a for a in acts if a != ('act',)]
             else:
@@ -271,11 +282,17 @@ def explore_run(kind, script_name, chooser):
             if ev[0] == 'd':
                 trace.append('d:' + norm(ev[1].label))
                 loop.deliver(ev[1])
+            elif ev[0] == 'conn':
+                trace.append('connect-completes')
+                loop.complete_connect(ev[1])
             elif ev[0] == 'act':
                 act = pending_actions[0]
                 if do(act):
                     pending_actions.pop(0)
                     trace.append('%s.%s' % (act[0], act[1]))
+                elif not dl and loop.open_connects():
+                    trace.append('connect-completes')
+                    loop.complete_connect(0)
                 elif not dl:
                     # B not connected yet and nothing in flight: the channel never opened
                     break
@@ -342,6 +359,9 @@ def explore_run(kind, script_name, chooser):
         if not w.pair.ct.lost:
             w.pair.c.close()
         loop.flush_all()
+        while loop.open_connects():         # connects still under way complete afterwards, as they would
+            loop.complete_connect(0)
+            loop.flush_all()
         for nm, conn in (('client', w.pair.c), ('server', w.pair.s)):
             if conn._local_listeners:
                 viol.append(('listener-registered-after-close', nm))
